@@ -705,7 +705,9 @@ pub fn profile_binding() -> GenCfg {
 pub fn c06(case_seed: u64, acc: &mut Acc) {
     let mut r = Prng::new(case_seed);
     let cfg = profile_binding();
-    let case = gen::generate(&mut r, &cfg);
+    let mut case = gen::generate(&mut r, &cfg);
+    // (the first row after an error item: `changed` refers to the vector of the failed call)
+    maybe_fault(&mut case, &mut r, 150);
     run_oracles(
         &case,
         case_seed,
